@@ -328,3 +328,73 @@ func VH_C15_infix() {
 	}
 	vObserve("outlen", len(got))
 }
+
+//verif:harness prop=C15 quick=1 thorough=2 merge=concrete timeout=1500
+//verif:bounds gts extract with locator `gene` on a linear record of 7 (quick) / 8 (thorough) symbolic residues with two genes that are two-part joins: join(1..2,4..6) and join(s..m,n..e) for every s<m<n<e (enumerated): one record per distinct region — two joins with the same ends and the same spliced length but different inner boundaries are different regions — each holding the spliced residues, in table order
+func VH_C15_extract_joins() {
+	L := 7 + vShard(1+vTier())
+	data := vBytesIn("r", L, 'a', 'z')
+	var ff gts.FeatureSlice
+	sp := gts.Props{}
+	sp.Add("mol_type", "x")
+	ff = ff.Insert(gts.Feature{Key: "source", Loc: gts.Range(0, L), Props: sp})
+	type jn struct{ s, m, n, e int }
+	s1 := vChoice("s", L-3)
+	m1 := s1 + 1 + vChoice("m", L-3-s1)
+	n1 := m1 + 1 + vChoice("n", L-2-m1)
+	e1 := n1 + 1 + vChoice("e", L-n1)
+	js := []jn{{0, 2, 3, 6}, {s1, m1, n1, e1}}
+	for k, j := range js {
+		p := gts.Props{}
+		p.Add("gene", "j"+string(rune('0'+k)))
+		ff = ff.Insert(gts.Feature{Key: "gene", Loc: gts.Join(gts.Range(j.s, j.m), gts.Range(j.n, j.e)), Props: p})
+	}
+	gb := seqio.GenBank{
+		Fields: seqio.GenBankFields{LocusName: "X", Molecule: gts.DNA, Topology: gts.Linear, Division: "UNK",
+			Date: seqio.Date{Year: 2000, Month: 1, Day: 1}, Definition: "d", Accession: "A", Version: "A.1",
+			Source: seqio.Organism{Species: "s", Name: "o", Taxon: []string{"t"}}},
+		Table:  ff,
+		Origin: seqio.NewOrigin(data),
+	}
+	out, err := vRunCmd("extract", extractFunc, []string{"--no-cache", "gene"}, []gts.Sequence{gb})
+	vAssert("command-ok", err == nil)
+	if err != nil {
+		return
+	}
+	vCover("extracted")
+	same := js[0] == js[1]
+	want := 2
+	if same {
+		want = 1
+	}
+	vAssert("one-record-per-distinct-region", len(out) == want)
+	if len(out) != want {
+		return
+	}
+	// records come in table order
+	var order []jn
+	for _, f := range gb.Table[1:] {
+		if f.Props[0][1] == "j0" {
+			order = append(order, js[0])
+		} else {
+			order = append(order, js[1])
+		}
+	}
+	for k, rec := range out {
+		j := order[k]
+		got := rec.Bytes()
+		a := j.m - j.s
+		vAssert("spliced-length", len(got) == a+(j.e-j.n))
+		if len(got) != a+(j.e-j.n) {
+			continue
+		}
+		for x := range got {
+			src := j.s + x
+			if x >= a {
+				src = j.n + (x - a)
+			}
+			vAssert("spliced-residues", got[x] == data[src])
+		}
+	}
+	vObserve("records", len(out))
+}
